@@ -59,7 +59,7 @@ func (m *SimMeta) GetStable(key []byte) ([]byte, error) {
 	if m.closed.Load() {
 		return nil, fmt.Errorf("simmeta: get on closed store")
 	}
-	return m.D.StableGet(string(key)), nil
+	return m.D.StableGetF(string(key))
 }
 
 func (m *SimMeta) SetStable(key, value []byte) error {
